@@ -1006,6 +1006,26 @@ fn small_programs() -> Vec<(u16, Vec<u16>, bool, &'static str)> {
     ]
 }
 
+/// More memory writes between load and `reset` than any bounded journal of changes would hold
+/// (0x9000 and 0x10100 stores, the second wrapping around all of memory): `continue; reset; exit`
+/// is followed by the harness's comparison of all 65,536 words with the loaded image.
+fn many_writes_sessions(tag: &'static str) -> Vec<(DbgCase, &'static str)> {
+    let mut out = Vec::new();
+    let mut rng = Rng::new(0x3A27);
+    for (count, base) in [(0x9000u16, 0x4000u16), (0x8001, 0x4000), (0x0100, 0x3100), (0xFFF0, 0x300A)] {
+        // ld r1 cnt / ld r2 base / and r0 r0 #0 / add r0 r0 #10 / loop: str r0 r2 #0 / add r2 r2 #1 /
+        // add r1 r1 #-1 / brnp loop / halt / cnt / base
+        let words = vec![0x2209, 0x2409, 0x5020, 0x102A, 0x7080, 0x14A1, 0x127F, 0x0BFC, 0xF025, 0x0000, count, base];
+        let p = Prog { orig: 0x3000, words, inp: vec![], stack: false, minimal: true, kind: "many-writes" };
+        let mut c = decorate(&mut rng, &p, tag, vec![], 600_000);
+        c.breaks.clear();
+        c.labels.clear();
+        c.cmds = vec![Cmd::Continue, Cmd::Reset, Cmd::Registers, Cmd::Exit];
+        out.push((c, "many-writes"));
+    }
+    out
+}
+
 /// Breakpoints a power-of-two stride apart in a long straight-line program: add both (or declare
 /// them with `.break`), remove one, run into the other — a lookup structure keyed by part of the
 /// address (hash, bitmap, page) must not lose the survivor.
@@ -1316,6 +1336,15 @@ pub fn run_prop(o: &crate::Opts, tag: &'static str) {
     let mut samples = Vec::new();
     if o.shard == 0 && tag != "D13" {
         for (c, kind) in directed(tag) {
+            let obs = run_debug(&mut cap, &c);
+            let v = if obs.line == "panic" { "-".to_string() } else { verdict(&mut cap, tag, &c, &obs) };
+            *kinds.entry(format!("directed-{}:{}", kind, obs.line.split(' ').next().unwrap_or(""))).or_default() += 1;
+            *verdicts.entry(v.clone()).or_default() += 1;
+            sink.put(&c.request(), &format!("{} | {}", obs.line, v));
+        }
+    }
+    if o.shard == 3 % o.nshards && tag == "D12" {
+        for (c, kind) in many_writes_sessions(tag) {
             let obs = run_debug(&mut cap, &c);
             let v = if obs.line == "panic" { "-".to_string() } else { verdict(&mut cap, tag, &c, &obs) };
             *kinds.entry(format!("directed-{}:{}", kind, obs.line.split(' ').next().unwrap_or(""))).or_default() += 1;
